@@ -134,8 +134,12 @@ def run_check(pid, tier, seed, replay=None):
     mod = load(pid)
     meta = mod.META
     scale = float(os.environ.get('VERIF_BUDGET', '1'))
+    # the module's budget is what the run needs on a quiet machine; the cap
+    # that truncates a run is set well above it, so that a loaded machine
+    # slows a check down instead of turning it inconclusive
+    margin = 4 if tier == 'quick' else 2
     budget = meta.get('budget', {}).get(
-        tier, 60 if tier == 'quick' else 600) * scale
+        tier, 60 if tier == 'quick' else 600) * scale * margin
     work = scratch_root()
     try:
         if replay:
